@@ -28,7 +28,8 @@ impl DumpRegistry {
         DumpRegistry {
             base_dir,
             rrdp_uris: HashMap::new(),
-            rrdp_dirs: HashSet::new(),
+            // The directory "rsync" is taken by the data fetched via rsync.
+            rrdp_dirs: HashSet::from(["rsync".into()]),
         }
     }
 
